@@ -278,7 +278,10 @@ def datetime_get(string):
         return default_values("datetime")
 
     if isinstance(string, dt.datetime):
-        return dt.datetime.strptime(string.strftime(FORMAT_DATETIME), FORMAT_DATETIME)
+        # Drop sub-seconds and time zone as the format does. Do not go through
+        # strftime: its "%Y" is not zero padded on every platform and years
+        # before 1000 could then not be parsed back.
+        return string.replace(microsecond=0, tzinfo=None)
 
     return dt.datetime.strptime(string, FORMAT_DATETIME)
 
